@@ -352,6 +352,8 @@ func scenarios() []param {
 		{Scn: "write-fastq"},
 		{Scn: "write-json"},
 		{Scn: "write-csv"},
+		{Scn: "annotate", Args: []string{"--pattern", fwdPrimer, "--pattern-name", "fw"}},
+		{Scn: "grep", Args: []string{"--approx-pattern", fwdPrimer, "--pattern-error", "1"}},
 	}
 }
 
